@@ -84,6 +84,60 @@ type funcLocks struct {
 // (s.lock() / s.unlock()): callee -> field -> effect ("Lock", "RLock", "Unlock").
 var lockWrappers = map[*ssa.Function]map[string]string{}
 
+// lockReleasers: wrappers that take a lock of their receiver and return the function that releases it
+// (defer s.locked()()): callee -> field.
+var lockReleasers = map[*ssa.Function]map[string]bool{}
+
+// releasedBy: the dynamic call cl invokes the release function returned by a lock-taking wrapper; returns that wrapper call.
+func releasedBy(cl *core.Call) *ssa.Call {
+	if cl == nil || cl.Static != nil || cl.Invoke || cl.Common == nil {
+		return nil
+	}
+	cv, ok := cl.Common.Value.(*ssa.Call)
+	if !ok {
+		return nil
+	}
+	if g := cv.Call.StaticCallee(); g != nil && len(lockReleasers[g]) > 0 {
+		return cv
+	}
+	return nil
+}
+
+// returnsRelease: every return of wrapper f yields a function that unlocks field fd of f's receiver.
+func returnsRelease(f *ssa.Function, fd string) bool {
+	n := 0
+	for _, rv := range returnValues(f) {
+		n++
+		mc, ok := core.Strip(rv).(*ssa.MakeClosure)
+		if !ok {
+			return false
+		}
+		target := closureArg(mc)
+		if target == nil {
+			return false
+		}
+		found := false
+		if target.Pkg != nil && target.Pkg.Pkg.Path() == "sync" && (target.Name() == "Unlock" || target.Name() == "RUnlock") {
+			// bound method value s.mtx.Unlock: the binding is the address of the field
+			if len(mc.Bindings) == 1 {
+				if fa, isFA := mc.Bindings[0].(*ssa.FieldAddr); isFA && core.Term(fa.X) == "P0" && fieldNameOf(fa.X.Type(), fa.Field) == fd {
+					found = true
+				}
+			}
+		} else {
+			for _, cl := range core.CallsIn(target) {
+				if bs, f2, op, ok := lockOp(cl); ok && bs == "P0" && f2 == fd && (op == "Unlock" || op == "RUnlock") {
+					found = true
+				}
+			}
+		}
+		if !found {
+			return false
+		}
+	}
+	return n > 0
+}
+
 func computeLocks(fn *ssa.Function, entry lockset) *funcLocks {
 	fl := &funcLocks{fn: fn, before: map[ssa.Instruction]lockset{}, acquiresOnRecv: map[string]bool{}}
 	if len(fn.Blocks) == 0 {
@@ -111,6 +165,13 @@ func computeLocks(fn *ssa.Function, entry lockset) *funcLocks {
 			}
 			base, field, op, ok := lockOp(core.CallOf(instr))
 			if !ok {
+				if rc := releasedBy(core.CallOf(instr)); rc != nil && len(rc.Call.Args) > 0 {
+					wb := core.Term(rc.Call.Args[0])
+					for f := range lockReleasers[rc.Call.StaticCallee()] {
+						delete(cur, wb+"|"+f)
+					}
+					continue
+				}
 				// a call to a lock / unlock wrapper of the same kind of object
 				if cl := core.CallOf(instr); cl != nil && cl.Static != nil && len(cl.Common.Args) > 0 {
 					if eff, isW := lockWrappers[cl.Static]; isW {
@@ -398,6 +459,7 @@ func (c *Ctx) lockAnalysis() *lockAnalysis {
 	mutMemo = map[*ssa.Function]int{}
 	modOnly = func(f *ssa.Function) bool { return f.Pkg != nil && c.P.IsModPkg(f.Pkg.Pkg) && !c.P.IsGenerated(f) }
 	lockWrappers = map[*ssa.Function]map[string]string{}
+	lockReleasers = map[*ssa.Function]map[string]bool{}
 	for round := 0; round < 2; round++ {
 		for _, f := range c.P.ModFuncs() {
 			la.locks[f] = computeLocks(f, nil)
@@ -461,10 +523,97 @@ func (c *Ctx) lockAnalysis() *lockAnalysis {
 			}
 			if len(eff) > 0 {
 				lockWrappers[f] = eff
+				for fd, e := range eff {
+					if e != "Unlock" && returnsRelease(f, fd) {
+						if lockReleasers[f] == nil {
+							lockReleasers[f] = map[string]bool{}
+						}
+						lockReleasers[f][fd] = true
+					}
+				}
 			}
 		}
 		if len(lockWrappers) == 0 {
 			break
+		}
+	}
+	// closures run by a lock-holding runner (s.writing(func() { ... })): the runner invokes its function parameter only
+	// while holding a lock of its receiver, so the literal's body runs under that lock of the receiver passed.
+	type runnerSum struct {
+		field string
+		excl  bool
+	}
+	runners := map[*ssa.Function]map[int]runnerSum{}
+	for _, f := range c.P.ModFuncs() {
+		if f.Parent() != nil || f.Signature.Recv() == nil {
+			continue
+		}
+		for i, prm := range f.Params {
+			if _, isSig := prm.Type().Underlying().(*types.Signature); !isSig || i == 0 || prm.Referrers() == nil {
+				continue
+			}
+			var sum *runnerSum
+			okAll := true
+			for _, r := range *prm.Referrers() {
+				if _, isDbg := r.(*ssa.DebugRef); isDbg {
+					continue
+				}
+				ci, isCall := r.(*ssa.Call)
+				if !isCall || ci.Call.Value != ssa.Value(prm) {
+					okAll = false
+					break
+				}
+				var here *runnerSum
+				for _, h := range la.locks[f].before[ci] {
+					if h.base == "P0" {
+						here = &runnerSum{h.field, h.excl}
+					}
+				}
+				if here == nil || (sum != nil && *sum != *here) {
+					okAll = false
+					break
+				}
+				sum = here
+			}
+			if okAll && sum != nil {
+				if runners[f] == nil {
+					runners[f] = map[int]runnerSum{}
+				}
+				runners[f][i] = *sum
+			}
+		}
+	}
+	if len(runners) > 0 {
+		for _, f := range c.P.ModFuncs() {
+			for _, cl := range core.CallsIn(f) {
+				if cl.Static == nil || runners[cl.Static] == nil || len(cl.Common.Args) == 0 {
+					continue
+				}
+				if _, isGo := cl.Instr.(*ssa.Go); isGo {
+					continue
+				}
+				for i, rs := range runners[cl.Static] {
+					if i >= len(cl.Common.Args) {
+						continue
+					}
+					mc, isMC := cl.Common.Args[i].(*ssa.MakeClosure)
+					if !isMC || mc.Referrers() == nil {
+						continue
+					}
+					only := true
+					for _, r := range *mc.Referrers() {
+						if _, isDbg := r.(*ssa.DebugRef); !isDbg && r != cl.Instr {
+							only = false
+						}
+					}
+					cf, _ := mc.Fn.(*ssa.Function)
+					if !only || cf == nil {
+						continue
+					}
+					wb := core.Term(cl.Common.Args[0])
+					la.locks[cf] = computeLocks(cf, lockset{wb + "|" + rs.field: heldLock{wb, rs.field, rs.excl}})
+				}
+			}
 		}
 	}
 	// collect accesses
